@@ -791,7 +791,8 @@ impl TypeLayout {
     }
 
     pub fn supports_equ(&self) -> bool {
-        let me = self.get_type_recursively();
+        // (an optional of a type without `==` has no `==` either: `A? == A?` would only fail at run time)
+        let me = self.disregard_distractors(true).get_type_recursively();
 
         match me {
             TypeLayout::Class(..) => false,
